@@ -3,9 +3,22 @@ import json, os
 import vlib
 
 
-def trace_inputs(run, hz, inputs, module="TraceStats", nproc=None, timeout=3000):
+def trace_inputs(run, hz, inputs, module="TraceStats", nproc=None, timeout=3000, also386=True, arch="amd64"):
     if not inputs:
         return
+    if also386:
+        # the same large inputs once more through a driver built for a platform whose int has 32 bits (GOARCH=386):
+        # the values must be the same (counts of 10^6 and their squares do not fit 32 bits)
+        try:
+            hz386 = vlib.go_build(goarch="386")
+            ok386 = vlib.can_run_386(hz386)
+        except vlib.InfraError:
+            ok386 = False
+        run.extra["int32_platform_pass"] = bool(ok386)
+        if ok386:
+            sub = [dict(i, id=i["id"] + 100000) for i in inputs if i["n"] <= 1100000]
+            if sub:
+                trace_inputs(run, hz386, sub, module=module, nproc=nproc, timeout=timeout, also386=False, arch="386")
     from concurrent.futures import ThreadPoolExecutor
     # few processes, each with inputs of several lengths in descending order (the driver then repeats them ascending):
     # a result must not depend on the lengths the process has handled before
@@ -26,6 +39,7 @@ def trace_inputs(run, hz, inputs, module="TraceStats", nproc=None, timeout=3000)
     with ThreadPoolExecutor(max_workers=k) as ex:
         events = [e for part in ex.map(one, range(k)) for e in part]
     for e in events:
+        e["arch"] = arch
         if "proxy_panic" in e:
             raise vlib.InfraError("spec proxy panicked: " + e["proxy_panic"])
         # totality: every entry has the same fields
@@ -43,11 +57,11 @@ def trace_inputs(run, hz, inputs, module="TraceStats", nproc=None, timeout=3000)
         e = events[0]
         run.sample({"L3_event": {k: e[k] for k in e if k not in ("stat", "entries")}, "entries": e["entries"][:1]})
     for e in rej:
-        facts = {"test": e["t"], "n": e["n"], "mode": e["mode"], "level": "L3"}
+        facts = {"test": e["t"], "n": e["n"], "mode": e["mode"], "level": "L3", "arch": e.get("arch", "amd64")}
         for pk in ("m", "k", "d", "forward", "sym"):
             if pk in e:
                 facts[pk] = e[pk]
         ev = dict(e)
         if len(json.dumps(ev.get("stat", {}))) > 4000:
             ev["stat"] = "(large)"
-        run.violation(facts, {"cmd": "stats-trace", "input": {"mode": e["mode"], "n": e["n"], "seed": e["seed"]}, "event": ev})
+        run.violation(facts, {"cmd": "stats-trace", "arch": e.get("arch", "amd64"), "input": {"mode": e["mode"], "n": e["n"], "seed": e["seed"]}, "event": ev})
